@@ -1724,7 +1724,9 @@ def run(ctx):
     missing = [k for k in need if not c.get(k)]
     if only:
         return
-    if missing:
+    if missing and not ctx.viol:
+        # (violating states are not expanded, so a run that found violations
+        # may legitimately not reach every mechanism)
         raise core.HarnessError("vacuous run: counters %r are zero" % missing)
     if c.get("distinct_nontrivial", 0) < 50:
         raise core.HarnessError("too few states with deletions / several segments")
